@@ -229,6 +229,32 @@ fn gen(maxlen: usize) -> Vec<Vec<Sop>> {
 		}
 	}
 	rec(&alpha, maxlen, &mut vec![], &mut out);
+	// deeper lists over the operations that build level shapes (rotating commits, reopen,
+	// checkpoint): every prefix of length 6 and 7 that starts with a rotating commit, then one small
+	// commit that must return (level-0 tables pile up to the stall limit along the way)
+	{
+		let deep = [Sop::Big, Sop::Reopen, Sop::Checkpoint];
+		for n in [6usize, 7] {
+			if n < maxlen {
+				continue; // already part of the full enumeration
+			}
+			let mut idx = vec![0usize; n - 1];
+			'deep: loop {
+				let mut l = vec![Sop::Big];
+				l.extend(idx.iter().map(|i| deep[*i]));
+				l.push(Sop::W);
+				out.push(l);
+				for p in (0..idx.len()).rev() {
+					idx[p] += 1;
+					if idx[p] < deep.len() {
+						continue 'deep;
+					}
+					idx[p] = 0;
+				}
+				break;
+			}
+		}
+	}
 	// runs of failing commits (more than the commit queue has slots), then a normal one
 	for k in 1..=12usize {
 		for prefix in [vec![], vec![Sop::W], vec![Sop::W, Sop::Drain]] {
@@ -249,7 +275,7 @@ pub fn check(tier: Tier) -> i32 {
 	use rayon::prelude::*;
 	surrealkv::verif::set_forced_height(1);
 	let mut report = Report::new("C17", tier, "model_checking");
-	let budget = Budget::new(if tier == Tier::Quick { 15.0 } else { 200.0 });
+	let budget = Budget::new(if tier == Tier::Quick { 22.0 } else { 200.0 });
 	let maxlen = if tier == Tier::Quick { 6 } else { 8 };
 	let lists = gen(maxlen);
 	let results: Vec<(usize, Result<Option<(String, String)>, String>)> = lists
@@ -309,7 +335,7 @@ pub fn check(tier: Tier) -> i32 {
 	report.add_u("evaluations", done);
 	let ex = report.coverage.get("exhaustive").and_then(|v| v.as_bool()).unwrap_or(true);
 	report.set("exhaustive", json!(ex && seq_complete));
-	let mut b: Vec<J> = vec![json!(format!("sequential stall-liveness part: {} of {} operation lists of length <= {maxlen} over {{commit, big-commit, checkpoint, drain, reopen}} with the real background task manager (memtable stall 2, level-0 stall 2)", done, lists.len()))];
+	let mut b: Vec<J> = vec![json!(format!("sequential stall-liveness part: {} of {} operation lists of length <= {maxlen} over {{commit, big-commit, checkpoint, drain, reopen}} with the real background task manager (memtable stall 2, level-0 stall 2), on 2 and on 3 levels; the lists include runs of 1-12 oversize (failing) commits and{}", done, lists.len(), if maxlen < 8 { " every list big-commit + 5 or 6 operations over {big-commit, reopen, checkpoint} + commit (lengths 7 and 8)" } else { " nothing beyond the full enumeration" }))];
 	if let Some(a) = report.coverage.get("schedule_bounds_completed").and_then(|v| v.as_array()) {
 		b.extend(a.iter().cloned());
 	}
